@@ -106,6 +106,10 @@ class ControlTheory(Theory):
             return [(st, BuiltinV("values", recv=v))]
         if isinstance(v, (TokensV, EncodedV, LineV, NamespaceV)):
             return [(st, BuiltinV(attr, recv=v))]
+        if isinstance(v, SuperObjV):
+            return [(st, BuiltinV("super." + attr))]
+        if isinstance(v, NestedClassV):
+            return [(st, BuiltinV(attr, recv=v))]
         if isinstance(v, ParamV):
             if attr == "name":
                 return [(st, StrV(v.name_t))]
@@ -140,6 +144,8 @@ class ControlTheory(Theory):
                 return [(st, RefV(z3.Select(arr("class_of", z3.ArraySort(Ref, Ref)), v.t)))]
             if attr in ("fget", "fset"):
                 return [(st, RefV(z3.Select(arr("prop_" + attr, z3.ArraySort(Ref, Ref)), v.t)))]
+            if "attr." + attr in self.hooks:
+                return self.hooks["attr." + attr](st, fr, v)
             return [(st, BuiltinV(attr, recv=v))]
         if isinstance(v, (StrV, BytesV)):
             return [(st, BuiltinV(attr, recv=v))]
@@ -289,6 +295,10 @@ class ControlTheory(Theory):
         pos_d = [ip.deref(st, x) if not isinstance(x, StarV) else x for x in pos]
         if name == "str":
             return ip.to_str(st, fr, pos[0])
+        if name == "super" and not pos and "super" not in self.hooks:
+            return [(st, SuperObjV())]
+        if name == "set" and not pos:
+            return [(st, SetV.empty(sym.StrL()))]
         if name == "cast":
             return [(st, pos[1])]
         if name in ("iscoroutinefunction", "isfunction", "callable", "isawaitable", "iscoroutine"):
@@ -460,6 +470,26 @@ class ControlTheory(Theory):
             return out
         raise Unsupported(f"dict.{name}()")
 
+    def setitem(self, st, fr, cont, key, v):
+        c = self.ip.deref(st, cont)
+        if isinstance(c, KwV) and isinstance(cont, PlaceV) and isinstance(key, StrV) and key.lit is not None:
+            d2 = dict(c.d)
+            d2[key.lit] = self.ip.deref_for_store(st, v)
+            self.ip.place_set(st, cont, KwV(d2))
+            return [(st, NORMAL)]
+        return super().setitem(st, fr, cont, key, v)
+
+    def classdef(self, st, fr, n):
+        """a class defined inside a function (help_formatter_factory): bases are evaluated, the body is kept as AST"""
+        bases = []
+        for b in n.bases:
+            res = self.ip.ev(st, fr, b)
+            if len(res) != 1 or isinstance(res[0][1], Exit):
+                raise Unsupported("class base expression")
+            bases.append(self.ip.deref(st, res[0][1]))
+        st.loc[n.name] = NestedClassV(n.name, bases, n, st.loc)
+        return [(st, NORMAL)]
+
     def construct(self, st, fr, c, pos, kws, node):
         if c.name in self.hooks:
             return self.hooks[c.name](st, fr, pos, kws, node)
@@ -525,6 +555,17 @@ class ControlTheory(Theory):
             ce.origin = "delivered"
             return [(ok, r), (bad, Exit(Exit.RAISE, e)), (can, Exit(Exit.RAISE, ce))]
         return super().do_await(st, fr, v, node)
+
+
+class SuperObjV(V):
+    """`super()` inside a method: attributes are the base class's methods (assumed contracts, hooked as `super.<name>`)"""
+
+
+class NestedClassV(V):
+    """a class object created by a `class` statement inside a function"""
+
+    def __init__(self, name, bases, node, env):
+        self.name, self.bases, self.node, self.env = name, bases, node, env
 
 
 class SigV(V):
